@@ -19,6 +19,11 @@ theorem mkInterceptedEvent_id {id : Nat} {h : IcHtlc} {e : IcEv} (he : mkInterce
   cases ha : h.incomingAmt <;> cases hs : h.fwdScid <;> simp [ha, hs] at he
   subst he; rfl
 
+/-- the sweep's test: the HTLC is failed back from HTLC_FAIL_BACK_BUFFER blocks before its OUTGOING expiry on -/
+theorem interceptTimedOut_iff (height : Nat) (h : IcHtlc) : interceptTimedOut height h = true ↔ h.outgoingCltv ≤ height + HTLC_FAIL_BACK_BUFFER := by
+  simp only [interceptTimedOut, decide_eq_true_eq]
+  omega
+
 /-- the production reload path starts from the persisted map -/
 theorem interceptsFromDisk_legacy : interceptsFromDisk false = true := by rfl
 
@@ -150,6 +155,12 @@ theorem iinv_step (s : ISt) (op : IOp) (h : IInv s) : IInv (istep s op) := by
         exact ⟨x, h1, hxid⟩
     · right; simp only [istep, List.mem_append]; left; exact ht
   | resolve id =>
+    refine ⟨?_, h.wd, ?_⟩
+    · intro kv hkv
+      exact h.wl kv (List.mem_filter.1 hkv).1
+    · intro kv hkv
+      exact h.k kv (List.mem_filter.1 hkv).1
+  | blocks ht =>
     refine ⟨?_, h.wd, ?_⟩
     · intro kv hkv
       exact h.wl kv (List.mem_filter.1 hkv).1
